@@ -31,6 +31,8 @@ class Runtime:
         self.theory = theory
         self.prop = prop
         self.hooks = {}            # "module:qualname" -> fn(interp, closure, args, kwargs)
+        # x690.util.visible_octets (a hexdump for debug logs, dependency code): a pure function of its argument to a string
+        self.hooks["x690.util:visible_octets"] = lambda interp, closure, args, kwargs: interp.ctx.fresh_str("hexdump")
         self.attr_hooks = {}       # (class fullname, attr) -> fn(interp, obj)
         self.module_cache = {}
         self.class_cache = {}
